@@ -369,6 +369,103 @@ func TestInListLiteral(t *testing.T) {
 	evid.Exhaustive("in over list literals with probed elements", n)
 }
 
+// TestSelfUpdateForms: `t = t op e`, `t = e op t`, `t = t op t` and `t op= e` evaluate their operands like any other
+// expression: what t is (a variable, a point key, nothing at all, a name whose block was left) decides the outcome.
+func TestSelfUpdateForms(t *testing.T) {
+	n := 0
+	for _, op := range []string{"+", "-", "*", "/", "%"} {
+		for form := 0; form < 5; form++ {
+			for sit := 0; sit < 5; sit++ {
+				var prog []*gen.Node
+				c := sem.NewCase(nil)
+				c.Fields = map[string]any{"other": int64(4)}
+				switch sit {
+				case 0: // nothing of that name exists
+				case 1:
+					c.Fields["t"] = int64(6)
+				case 2:
+					prog = append(prog, gen.NSet("t", gen.NInt(6)))
+				case 3: // assigned only in a block that was left
+					prog = append(prog, gen.NIf([]*gen.Node{gen.NBool(true)}, [][]*gen.Node{{gen.NSet("t", gen.NInt(6))}}, nil, false))
+				default: // a string key: another operand type
+					c.Fields["t"] = "six"
+				}
+				var st *gen.Node
+				switch form {
+				case 0:
+					st = gen.NSet("t", gen.NBin(op, id("t"), gen.NInt(2)))
+				case 1:
+					st = gen.NSet("t", gen.NBin(op, gen.NInt(20), id("t")))
+				case 2:
+					st = gen.NSet("t", gen.NBin(op, id("t"), id("t")))
+				case 3:
+					st = gen.NAssign(op+"=", []*gen.Node{id("t")}, []*gen.Node{gen.NInt(2)})
+				default:
+					st = gen.NSet("t", gen.NBin(op, gen.NBin(op, id("t"), gen.NInt(2)), gen.NInt(3)))
+				}
+				prog = append(prog, gen.NCall("probe", gen.NStr("before"), id("t")), st, gen.NCall("probe", gen.NStr("after"), id("t")), gen.NCall("add_key", id("seen"), id("t")))
+				c.Scripts[c.Root] = gen.FixAll(prog)
+				judge(t, "selfupdate", c, fmt.Sprintf("selfupdate/%s/%d/%d", op, form, sit), "self-update")
+				n++
+			}
+		}
+	}
+	evid.Exhaustive("operator x {t=t op e, t=e op t, t=t op t, t op= e, t=t op e op e} x what t is", n)
+}
+
+// TestMembershipAfterMutation: `x in l` looks at the list as it is now - also a long list, also after an element was
+// replaced through another path to the same list (an alias, a container that holds it, a compound assignment).
+func TestMembershipAfterMutation(t *testing.T) {
+	n := 0
+	for _, size := range []int{3, 15, 16, 17, 32, 64, 300} {
+		for via := 0; via < 5; via++ {
+			for _, kind := range []string{"int", "str"} {
+				var elems []*gen.Node
+				for i := 0; i < size; i++ {
+					if kind == "int" {
+						elems = append(elems, gen.NInt(int64(i)))
+					} else {
+						elems = append(elems, gen.NStr(fmt.Sprint("s", i)))
+					}
+				}
+				oldV, newV := gen.NInt(0), gen.NInt(1000)
+				if kind == "str" {
+					oldV, newV = gen.NStr("s0"), gen.NStr("fresh")
+				}
+				prog := []*gen.Node{gen.NSet("big", gen.NList(elems...)),
+					gen.NCall("probe", gen.NStr("first"), gen.NBin("in", oldV.Clone(), id("big")), gen.NBin("in", newV.Clone(), id("big")))}
+				var write *gen.Node
+				switch via {
+				case 0:
+					write = gen.NAssign("=", []*gen.Node{gen.NIndex(id("big"), gen.NInt(0))}, []*gen.Node{newV.Clone()})
+				case 1:
+					prog = append(prog, gen.NSet("al", id("big")))
+					write = gen.NAssign("=", []*gen.Node{gen.NIndex(id("al"), gen.NInt(0))}, []*gen.Node{newV.Clone()})
+				case 2:
+					prog = append(prog, gen.NSet("holder", gen.NMap(gen.NStr("l"), id("big"))))
+					write = gen.NAssign("=", []*gen.Node{gen.NIndex(id("holder"), gen.NStr("l"), gen.NInt(0))}, []*gen.Node{newV.Clone()})
+				case 3:
+					prog = append(prog, gen.NSet("rows", gen.NList(id("big"))))
+					if kind == "int" {
+						write = gen.NAssign("+=", []*gen.Node{gen.NIndex(id("rows"), gen.NInt(0), gen.NInt(0))}, []*gen.Node{gen.NInt(1000)})
+					} else {
+						write = gen.NAssign("=", []*gen.Node{gen.NIndex(id("rows"), gen.NInt(0), gen.NInt(0))}, []*gen.Node{newV.Clone()})
+					}
+				default:
+					prog = append(prog, gen.NSet("rows", gen.NList(gen.NMap(gen.NStr("k"), id("big")))))
+					write = gen.NAssign("=", []*gen.Node{gen.NIndex(id("rows"), gen.NInt(0), gen.NStr("k"), gen.NInt(int64(-size)))}, []*gen.Node{newV.Clone()})
+				}
+				prog = append(prog, write, gen.NCall("probe", gen.NStr("second"), gen.NBin("in", oldV.Clone(), id("big")), gen.NBin("in", newV.Clone(), id("big")), gen.NIndex(id("big"), gen.NInt(0))))
+				c := sem.NewCase(gen.FixAll(prog))
+				c.Fuel = 200000
+				judge(t, "membership", c, fmt.Sprintf("membership/%d/%d/%s", size, via, kind), "membership-after-mutation")
+				n++
+			}
+		}
+	}
+	evid.Exhaustive("list size x path of the write x element kind: in before and after", n)
+}
+
 func genCase(t *rapid.T) (*sem.Case, *sgen.G) {
 	g := sgen.New(t)
 	g.Probes = true
